@@ -25,7 +25,11 @@
    targets -- two leniencies, each with its Example): every accepted input is the rendering of a well-formed document of
    Spec/CstFull.v stage S2, hence satisfies N1-N7 on normalised URIs; the resource bounds of the completeness theorem
    follow from acceptance (parse_sound_fragment_n_res), so the parsed tree IS the document's meaning
-   (parse_sound_and_complete_n).
+   (parse_sound_and_complete_n).  (9) Soundness WITH THE PROLOG AND ENTITIES (in_fragment_p, Proofs/CstSoundP.v: BOM, XML
+   declaration, DOCTYPE with every kind of declaration, character-data general entities declared AND used; conditions P1-P8
+   on the bytes, each leniency with its Example): every accepted input is the rendering of a well-formed document of
+   Spec/CstFullS5.v (parse_sound_fragment_p) -- this covers misplaced / repeated XML declarations, undefined references,
+   recursion, '<' reaching an attribute value through an entity, and the DTD syntax.
    Statements are pinned here (copied verbatim from the proof files by tools/pin_props.py);
    each is re-proved by `exact` and followed by Print Assumptions. *)
 From Coq Require Import Ascii String.
@@ -36,7 +40,8 @@ From RX.Model Require Import Base CharClass Stream Tokenizer Doc Builder Parse A
 From RX.Spec Require Chars.
 From RX.Spec Require Cst.
 From RX.Proofs Require Import CharTablesProofs RejectProofs WfParseTok WfParseChars WfParse CstSound CstSoundDoc CstSoundCor TruncMain TruncDtdMain CstSoundU CstSoundUDoc CstSoundUCor CstSoundT CstSoundTDoc CstSoundTCor NsRejDefs NsRejBuild NsRejMain CstNsView CstFullMain CstSoundN CstSoundNDoc CstSoundNCor.
-From RX.Spec Require CstU CstText CstNs CstFull.
+From RX.Spec Require CstU CstText CstNs CstFull CstFullS5.
+From RX.Proofs Require CstSoundP CstSoundPRDoc CstSoundPRCor.
 Open Scope N_scope.
 
 (* ---- Proofs/CharTablesProofs.v ---- *)
@@ -374,8 +379,45 @@ Print Assumptions C08_parse_sound_and_complete_n.
 
 End G12.
 
-(* ---- Proofs/NsRejMain.v ---- *)
+(* ---- Proofs/CstSoundPRDoc.v ---- *)
 Module G13.
+Import RX.Spec.CstFull. Import RX.Spec.CstFullS5. Import RX.Proofs.CstSoundP. Import RX.Proofs.CstSoundPRDoc.
+Theorem C08_parse_sound_fragment_p :
+  forall text opt d,
+  in_fragment_p text = true -> allow_dtd opt = true ->
+  parse text opt = Ok d ->
+  exists c : S5.doc, S5.wf_doc c = true /\ S5.render c = text.
+Proof. exact parse_sound_fragment_p. Qed.
+Print Assumptions C08_parse_sound_fragment_p.
+
+Theorem C08_parse_sound_fragment_p_res :
+  forall text opt d,
+  in_fragment_p text = true -> allow_dtd opt = true ->
+  parse text opt = Ok d ->
+  exists c : S5.doc, S5.wf_doc c = true /\ S5.render c = text /\
+    S5.distinct_decls_le c (N.to_nat 65535) /\ 1 + N.of_nat (S5.ns_cost c) <= u32_max.
+Proof. exact parse_sound_fragment_p_res. Qed.
+Print Assumptions C08_parse_sound_fragment_p_res.
+
+End G13.
+
+(* ---- Proofs/CstSoundPRCor.v ---- *)
+Module G14.
+Import RX.Spec.CstFull. Import RX.Spec.CstFullS5. Import RX.Proofs.CstNsView. Import RX.Proofs.CstSoundP. Import RX.Proofs.CstSoundPRCor.
+Theorem C08_parse_sound_and_complete_p :
+  forall text opt d,
+  in_fragment_p text = true -> allow_dtd opt = true -> parse text opt = Ok d ->
+  N.of_nat (length text) <= nodes_limit opt ->      (* room for all nodes *)
+  N.of_nat (length text) <= u32_max ->              (* the input is at most u32::MAX bytes long *)
+  exists c : S5.doc,
+    S5.wf_doc c = true /\ S5.render c = text /\ CstNsView.view text d = Some (S5.sem c).
+Proof. exact parse_sound_and_complete_p. Qed.
+Print Assumptions C08_parse_sound_and_complete_p.
+
+End G14.
+
+(* ---- Proofs/NsRejMain.v ---- *)
+Module G15.
 Import CstNs.
 Theorem C08_ns_violation_rejected :
   forall (c : doc) (opt : options),
@@ -388,4 +430,4 @@ Theorem C08_ns_violation_rejected :
 Proof. exact ns_violation_rejected. Qed.
 Print Assumptions C08_ns_violation_rejected.
 
-End G13.
+End G15.
